@@ -13,6 +13,7 @@ import time
 import pandas as pd
 
 from qsmon import brokerwl as bw
+from qsmon.core import F, Violation, close  # noqa
 
 SIDES = ('buy', 'sell')
 SIZES = ('smaller', 'equal', 'larger')
@@ -200,6 +201,77 @@ class PGen(object):
         if self.twin and a == self.assets[0]:
             self.queue.append(['pf_txn', 'P', t_, self.assets[1], q, price, comm, 'T%d' % self.n])
         return ['pf_txn', 'P', t_, a, q, price, comm, 'R%d' % self.n]
+
+
+def wide_portfolio_script(rng):
+    """One portfolio holding MANY assets at once (15, 16, 17, 30, 64): longs and shorts, with commissions on both sides."""
+    n = rng.choice([15, 16, 17, 30, 64])
+    fills = []
+    for i in range(n):
+        a = 'EQ:W%02d' % i
+        q = rng.choice([1, -1]) * rng.randint(1, 900)
+        p = bw.rand_price(rng)
+        fills.append([a, q, p, round(abs(q * p) * rng.choice([0.0, 0.001, 0.01]) + rng.choice([0.0, 1.0]), 4)])
+        if rng.random() < 0.5:
+            q2 = -int(q / abs(q)) * rng.randint(1, abs(q))          # part (or all) of it traded back
+            p2 = bw.rand_price(rng)
+            fills.append([a, q2, p2, round(abs(q2 * p2) * rng.choice([0.0, 0.001, 0.01]) + rng.choice([0.0, 1.0]), 4)])
+    marks = {'EQ:W%02d' % i: bw.rand_price(rng) for i in range(n) if rng.random() < 0.7}
+    return {'start': rng.choice(bw.STARTS), 'fills': fills, 'marks': marks}
+
+
+def wide_portfolio_case(sp, acc, prop):
+    """The portfolio's aggregate figures are the sums of its positions' figures and follow the fills (C02: market value and
+    equity; C03: total = realised + unrealised = market value - cost of the fills - commissions)."""
+    bw.install()
+    from qstrader.broker.portfolio.portfolio import Portfolio
+    from qstrader.broker.transaction.transaction import Transaction
+    t = bw.ts(sp['start'])
+    cash0 = 1e9
+    pf = Portfolio(t, starting_cash=cash0, portfolio_id='W')
+    net, last, cost, comm = {}, {}, {}, {}
+    for k, (a, q, p, c) in enumerate(sp['fills']):
+        t = t + pd.Timedelta(minutes=1)
+        pf.transact_asset(Transaction(a, q, t, p, 'w%d' % k, commission=c))
+        if net.get(a, 0) == 0:
+            cost[a], comm[a] = F(0), F(0)          # a new opening: P&L counts from here
+        net[a] = net.get(a, 0) + q
+        last[a] = p
+        cost[a] += F(p) * q
+        comm[a] += F(c)
+    t = t + pd.Timedelta(minutes=1)
+    for a, p in sp['marks'].items():
+        pf.update_market_value_of_asset(a, p, t)
+        if net.get(a, 0) != 0:
+            last[a] = p
+    held = {a: q for a, q in net.items() if q != 0}
+    mv = sum((F(last[a]) * q for a, q in held.items()), F(0))
+    scale = sum((abs(F(last[a]) * q) + abs(cost[a]) for a, q in held.items()), F(1))
+    pos = pf.pos_handler.positions
+    if prop == 'C02':
+        if not close(pf.total_market_value, mv, scale):
+            raise Violation('C02', 'wide-portfolio/market-value', 'a portfolio holding %d assets reports market value %r; quantity x latest '
+                            'price over its holdings gives %r' % (len(held), pf.total_market_value, float(mv)), sp)
+        cash = F(cash0) - sum((F(p) * q + F(c) for _, q, p, c in sp['fills']), F(0))
+        if not close(pf.total_equity, cash + mv, scale + abs(F(cash0))):
+            raise Violation('C02', 'wide-portfolio/equity', 'a portfolio holding %d assets reports equity %r; cash + market value is %r'
+                            % (len(held), pf.total_equity, float(cash + mv)), sp)
+    else:
+        tot = sum((F(last[a]) * q - cost[a] - comm[a] for a, q in held.items()), F(0))
+        got = (pf.total_pnl, pf.total_realised_pnl, pf.total_unrealised_pnl)
+        parts = (sum(x.total_pnl for x in pos.values()), sum(x.realised_pnl for x in pos.values()), sum(x.unrealised_pnl for x in pos.values()))
+        if not close(got[0], tot, scale):
+            raise Violation('C03', 'wide-portfolio/total-pnl', 'a portfolio holding %d assets reports total P&L %r; market value - cost of the '
+                            'fills - commissions over its open positions gives %r' % (len(held), got[0], float(tot)), sp)
+        if not close(got[0], F(got[1]) + F(got[2]), scale):
+            raise Violation('C03', 'wide-portfolio/total-is-not-realised-plus-unrealised', 'a portfolio holding %d assets reports total %r, '
+                            'realised %r, unrealised %r' % (len(held), got[0], got[1], got[2]), sp)
+        for nm, g_, p_ in zip(('total', 'realised', 'unrealised'), got, parts):
+            if not close(g_, F(p_), scale):
+                raise Violation('C03', 'wide-portfolio/aggregate-vs-positions/%s' % nm, 'a portfolio holding %d assets reports %s P&L %r; its '
+                                'positions\' own figures add up to %r' % (len(held), nm, g_, p_), sp)
+    acc.count('%s:wide_portfolios_checked' % prop)
+    acc.see('%s:wide_portfolio_sizes' % prop, len(held))
 
 
 def random_ladder(rng, acc, prop, nops, faults):
